@@ -113,7 +113,6 @@ struct Local {
     counters: BTreeMap<String, u64>,
     violations: Vec<Violation>,
     samples: Vec<Value>,
-    f23_seen: Vec<String>,
     f26_seen: Vec<String>,
     /// (last written char, first char of the next push) seen at `push_space_if_needed` in real
     /// dense runs, restricted to pairs of the break table's TRUE entries
@@ -192,19 +191,11 @@ fn check_tree(model: &mut Model, family: &str, blk: &Blk, spans: &[usize], local
         }
     };
     let expected = norm_block(blk);
-    let f23 = outside_h2(blk, false);
-    let f23b = outside_h2(blk, true);
     let f26 = in_f26_region(blk);
     if f26 {
         local.hist("family", "outside-H3 (printer-added `)` before a `(`-statement without `;`)");
     }
     local.hist("family", family);
-    if f23 {
-        local.hist("family", "outside-H2 (negative literal left of ^ or under ::)");
-    }
-    if f23b {
-        local.hist("family", "outside-H2 for dense (negative literal left of ..)");
-    }
     let mut seen_text: HashMap<String, ()> = HashMap::new();
     let mut nontrivial = false;
     for kind in KINDS {
@@ -294,12 +285,6 @@ fn check_tree(model: &mut Model, family: &str, blk: &Blk, spans: &[usize], local
                     if f26 {
                         if !local.f26_seen.iter().any(|t| t == &run.text) && local.f26_seen.len() < 4 {
                             local.f26_seen.push(run.text.clone());
-                        }
-                        continue;
-                    }
-                    if f23 || (f23b && kind == "dense") {
-                        if !local.f23_seen.iter().any(|t| t == &run.text) && local.f23_seen.len() < 4 {
-                            local.f23_seen.push(run.text.clone());
                         }
                         continue;
                     }
@@ -798,7 +783,6 @@ pub fn run(report: &mut Report, replay: Option<&str>) {
             .collect();
         handles.into_iter().map(|h| h.join().expect("worker panicked")).collect()
     });
-    let mut f23_texts: Vec<String> = Vec::new();
     let mut f26_texts: Vec<String> = Vec::new();
     let mut exercised: std::collections::BTreeSet<(u8, u8)> = Default::default();
     // smallest failing inputs first (the report keeps a handful per check)
@@ -810,17 +794,8 @@ pub fn run(report: &mut Report, replay: Option<&str>) {
     }
     for local in locals {
         exercised.extend(local.exercised.iter().cloned());
-        f23_texts.extend(local.f23_seen.iter().cloned());
         f26_texts.extend(local.f26_seen.iter().cloned());
         local.merge_into(report);
-    }
-    f23_texts.sort();
-    f23_texts.dedup();
-    if !f23_texts.is_empty() {
-        report.notes.push(format!(
-            "trees outside H2 (negative literal as left operand of ^ / under :: / left of .. in dense) were generated and did not read back, as findings F23/F23b say; e.g. {:?}",
-            f23_texts.iter().take(3).collect::<Vec<_>>()
-        ));
     }
     // coverage of the break table by real dense outputs
     let mut unreached: BTreeMap<&'static str, u64> = BTreeMap::new();
